@@ -9,8 +9,10 @@ type mapSliceValue struct {
 	valueEmbed
 }
 
-// func (v mapSliceValue) Equal(o Value) bool     { return v.slice == o.Interface() }
 func (v mapSliceValue) Interface() any { return v.slice }
+
+// Equal compares item by item, the way arrays are compared (the embedded default never is equal, not even to itself).
+func (v mapSliceValue) Equal(o Value) bool { return Equal(v.slice, o.Interface()) }
 
 func (v mapSliceValue) Contains(elem Value) bool {
 	_, found := v.entry(elem)
